@@ -283,6 +283,9 @@ func execUpload(vec J, out *Writer) {
 		case "abs":
 			write(filepath.Join(outside, base), "out:"+key)
 			listed = append(listed, filepath.Join(outside, base))
+		case "dot", "dotdot1", "slash":
+			// names that ARE directories: the control file's own directory, its parent, the root
+			listed = append(listed, map[string]string{"dot": ".", "dotdot1": "..", "slash": "/"}[sh.(string)])
 		case "sub":
 			write(filepath.Join(src, "sub", base), key)
 			listed = append(listed, "sub/"+base)
